@@ -19,24 +19,24 @@ TECHNIQUE = ("Coq proof of decode(encode v) = v per column type for every value 
              "vendored vitess binlog decoder (mysql.CellValue) applied to the real bytes")
 LEVEL_TEXT = ("Proof (P): round-trip theorems for integers (all widths, signed/unsigned), YEAR, DATE, DATETIME2 and TIMESTAMP2 for every fsp, TIME2, "
               "length-prefixed strings/blobs, ENUM/SET/BIT and the CHAR metadata, for every value in range; three are REFUTED on the faithful model and on "
-              "the real code (negative TIME with 59 seconds and a fraction, YEAR 0000, DECIMAL(M,M), JSON keys >= 256 bytes, JSON uint32 underflow in the small-format check). "
+              "the real code (negative TIME with 59 seconds and a fraction, DECIMAL(M,M)); YEAR 0000, JSON keys >= 256 bytes and the JSON small-format uint32 underflow were repaired "
+              "(f00b2b9, 68f42a2): year_roundtrip now covers 0000 and the former witnesses are always-run regression cases and Examples. "
               "NEWDECIMAL is proved for every precision > scale and every value; FLOAT/DOUBLE for every bit pattern; JSON binary: scalars proved, arrays/objects (small and large "
               "formats) modelled, executed and checked by correspondence with two decoders, general theorem not proved (json_scalar_roundtrip_partial). oracle_on_model is proved for every "
               "in-domain value of the proved classes. Partial: that dolt emits the model's bytes is the correspondence.")
 LEVEL_NOTE = ("Trusted: Coq kernel, Go harness + Python glue, the vitess decoder as second opinion. Modelled, not verified: GMS Type.Convert, apd decimal "
               "rounding/Text, time.Time calendar arithmetic (civil fields are inputs of the model), the row-event framing and NULL bitmap, FLOAT/DOUBLE bit "
               "arithmetic (bit patterns are the values), JSON text parsing (documents are given as trees), GEOMETRY. The second JSON decoder is a Go port of MySQL's json_binary.cc rules in the harness (vitess only prints SQL; it must accept the bytes).")
-THEOREMS = ["decimal_roundtrip", "float_roundtrip", "double_roundtrip", "json_scalar_roundtrip_partial", "json_key256_refuted", "json_underflow_refuted", "oracle_on_model", "int_roundtrip", "year_roundtrip", "date_roundtrip", "datetime2_roundtrip", "timestamp2_roundtrip", "time2_roundtrip", "string_roundtrip",
+THEOREMS = ["decimal_roundtrip", "float_roundtrip", "double_roundtrip", "json_scalar_roundtrip_partial", "oracle_on_model", "int_roundtrip", "year_roundtrip", "date_roundtrip", "datetime2_roundtrip", "timestamp2_roundtrip", "time2_roundtrip", "string_roundtrip",
             "blob_roundtrip", "enum_roundtrip", "set_roundtrip", "bit_roundtrip", "char_meta_roundtrip", "bit_meta_len_ok",
-            "time2_neg59_refuted", "year_zero_refuted", "decimal_pp_refuted"]
-REFUTED = ["time2_roundtrip for negative values with 59 seconds and non-zero microseconds: time2_neg59_refuted",
-           "year_roundtrip for the zero year 0000: year_zero_refuted", "decimal for DECIMAL(M,M) columns (serializer errors): decimal_pp_refuted",
-           "json round trip for object keys of 256 bytes or more: json_key256_refuted", "json round trip when an array/object element is longer than 65535 bytes and is the last non-literal one: json_underflow_refuted"]
+            "time2_neg59_refuted", "decimal_pp_refuted", "json_key_len_roundtrip"]
+REFUTED = ["time2_roundtrip for negative values with 59 seconds and non-zero microseconds: time2_neg59_refuted (open finding)",
+           "decimal for DECIMAL(M,M) columns (serializer errors): decimal_pp_refuted (open finding)"]
 RULE = ("per column type: boundary values (min, max, -1, 0, powers of 256 +-1, 9-digit group boundaries, calendar and clock extremes, fsp 0..6, enum/set widths at "
         "255/256 members, length prefixes at 255/256 and 65535/65536) + random values; non-trivial = every case (each is a distinct typed value); distinct by (type, value)")
 ASSUMPTIONS = ["values are in the column type's domain (the oracle is vacuous outside it)", "strings use a single-byte character set (latin1_bin / binary): declared length = byte length",
                "negative zero DECIMAL values are not generated (whether dolt can store one was not established)"]
-REQUIRED_TAGS = ["float", "double", "json", "json-large-format", "int", "year", "date", "datetime", "timestamp", "time", "time-neg", "decimal", "decimal-neg", "varchar", "char", "blob", "text", "enum", "set", "bit",
+REQUIRED_TAGS = ["reg-year-0000", "reg-json-key256", "reg-json-oversize", "float", "double", "json", "json-large-format", "int", "year", "date", "datetime", "timestamp", "time", "time-neg", "decimal", "decimal-neg", "varchar", "char", "blob", "text", "enum", "set", "bit",
                  "len-prefix-2", "enum-2byte", "fsp-odd"]
 COQ_SHARD = 700
 
@@ -339,6 +339,15 @@ def classify(case, out):
         tags.append("enum-2byte")
     if t in ("datetime", "timestamp") and case["fsp"] % 2 == 1:
         tags.append("fsp-odd")
+    # regression witnesses of repaired findings (always generated)
+    if t == "year" and int(case["i"]) == 0:
+        tags.append("reg-year-0000")
+    if t == "json":
+        doc = _json.loads(case["json"])
+        if _any_node(doc, lambda d: isinstance(d, dict) and any(len(k.encode()) >= 256 for k in d)):
+            tags.append("reg-json-key256")
+        if _any_node(doc, lambda d: isinstance(d, (list, dict)) and any(_enc_len(x) > 65535 for x in (d if isinstance(d, list) else d.values()))):
+            tags.append("reg-json-oversize")
     if t == "json" and len(o.get("data") or []) > 4 and o["data"][4] in (1, 3):
         tags.append("json-large-format")
     if not o.get("agree"):
@@ -355,17 +364,8 @@ def match_known(finding, case, out):
     t = case.get("t")
     if key == "binlog.timeSerializer:negative-time-59s-with-fraction":
         return t == "time" and case["neg"] and case["Us"] > 0 and case["S"] == 59
-    if key == "binlog.yearSerializer:year-0000":
-        return t == "year" and int(case["i"]) == 0
     if key == "binlog.decimalSerializer:precision-equals-scale":
         return t == "decimal" and case["P"] == case["Sc"]
-    if t == "json":
-        doc = _json.loads(case["json"])
-        if key == "binlog.json:object-key-256-bytes":
-            return _any_node(doc, lambda d: isinstance(d, dict) and any(len(k.encode()) >= 256 for k in d))
-        if key == "binlog.json:small-format-uint32-underflow":
-            # an array/object element (or key) whose encoding is longer than 65535 bytes
-            return _any_node(doc, lambda d: isinstance(d, (list, dict)) and any(_enc_len(x) > 65535 for x in (d if isinstance(d, list) else d.values())))
     return False
 
 
